@@ -126,6 +126,16 @@ theorem handover_current_x (env : Env) (c : Call) (ctx : Ctx) (hsys : c.caller =
         ctx'.accts = (ctx.accts.write c.rcv (nonceKeyPrefix ++ tok) (beBytes 0)).write c.rcv (roleKeyPrefix ++ tok)
           (encRoles (deleteRoles roles [roleNFTCreate])) ∧
         (encRoles (deleteRoles roles [roleNFTCreate])).length < two63) ∧
+      (shardOf env.nshards dest = env.self → ∃ A3 roles2,
+        A3 = (((ctx.accts.write c.rcv (nonceKeyPrefix ++ tok) (beBytes 0)).write c.rcv (roleKeyPrefix ++ tok)
+          (encRoles (deleteRoles roles [roleNFTCreate]))).write dest (nonceKeyPrefix ++ tok)
+            (beBytes (ctr ctx.accts c.rcv tok))) ∧
+        (encRoles (deleteRoles roles [roleNFTCreate])).length < two63 ∧
+        rolesOf (A3.read dest (roleKeyPrefix ++ tok)) = some roles2 ∧
+        (roles2.contains roleNFTCreate = true → ctx'.accts = A3) ∧
+        (roles2.contains roleNFTCreate = false →
+          ctx'.accts = A3.write dest (roleKeyPrefix ++ tok) (encRoles (roles2 ++ [roleNFTCreate])) ∧
+          (encRoles (roles2 ++ [roleNFTCreate])).length < two63)) ∧
       ∃ tr, out.outAccts = [{ addr := dest, balance := some 0, delta := some 0, transfers := [tr] }] ∧
         tr.data = encodeCall fnESDTNFTCreateRoleTransfer [tok, beBytes (ctr ctx.accts c.rcv tok)]) := by
   unfold esdtNFTCreateRoleTransfer checkBasic
@@ -151,11 +161,51 @@ theorem handover_current_x (env : Env) (c : Call) (ctx : Ctx) (hsys : c.caller =
   xsteps
   split
   · rename_i hsame
-    repeat' (first | xstep | wp_forget | apply Post.pure)
-    exact ⟨_, _, roles, hargs, hroles, fun hne => absurd hsame hne, _, rfl, by rw [hn]; rfl⟩
+    xsteps
+    apply Post.mono (RO.tick .l c4)
+    intro _ c5 h5
+    xsteps
+    apply Post.mono (spec_saveLatestNonce _ _ _ c5)
+    intro _ c6 h6
+    unfold addCreateRole
+    xsteps
+    apply Post.mono (spec_getRoles _ _ c6)
+    intro r2 c7 ⟨h7, hr2⟩
+    obtain ⟨roles2, isNew2⟩ := r2
+    simp only at hr2 ⊢
+    have hA3 := h6
+    rw [h5, h4, h3, h2, h1] at hA3
+    have hn' := hn
+    change n = ctr ctx.accts c.rcv _ at hn'
+    split
+    · rename_i hhas
+      apply Post.pure
+      xsteps
+      apply Post.mono (RO.tick .s c7)
+      intro _ c8 h8
+      repeat' (first | xstep | apply Post.pure)
+      refine ⟨_, _, roles, hargs, hroles, fun hne => absurd hsame hne, fun _ => ⟨_, roles2, rfl, hl, ?_, ?_, ?_⟩, _, rfl,
+        by rw [hn']⟩
+      · rw [← hn', ← hA3]; exact hr2
+      · intro _; rw [h8, h7, hA3, hn']
+      · intro hf; rw [hhas] at hf; cases hf
+    · rename_i hhas
+      xsteps
+      apply Post.mono (spec_saveRoles_len _ _ _ c7)
+      intro _ c8 ⟨h8, hl8⟩
+      xsteps
+      apply Post.mono (RO.tick .s c8)
+      intro _ c9 h9
+      repeat' (first | xstep | apply Post.pure)
+      refine ⟨_, _, roles, hargs, hroles, fun hne => absurd hsame hne, fun _ => ⟨_, roles2, rfl, hl, ?_, ?_, ?_⟩, _, rfl,
+        by rw [hn']⟩
+      · rw [← hn', ← hA3]; exact hr2
+      · intro ht; exact absurd ht hhas
+      · intro _; exact ⟨by rw [h9, h8, h7, hA3, hn'], hl8⟩
   · rename_i hdiff
     repeat' (first | xstep | apply Post.pure)
-    exact ⟨_, _, roles, hargs, hroles, fun _ => ⟨by rw [h4, h3, h2, h1], hl⟩, _, rfl, by rw [hn]; rfl⟩
+    exact ⟨_, _, roles, hargs, hroles, fun _ => ⟨by rw [h4, h3, h2, h1], hl⟩, fun h => absurd h hdiff, _, rfl,
+      by rw [hn]; rfl⟩
 
 /-- hand-over, delivery at the next holder -/
 theorem handover_next_x (env : Env) (c : Call) (ctx : Ctx) (hsys : c.caller ≠ esdtSCAddress) :
@@ -216,16 +266,20 @@ inductive CStep
   | deliver (i : Nat)
 
 /-- the hand-over message a successful call leaves for another shard, read off its output transfer -/
-def hmsgOf (tok : Bytes) (f : FnId) (c : Call) (out : VMOutput) : List HMsg :=
+def hmsgOf (e : Env) (s : Nat) (tok : Bytes) (f : FnId) (c : Call) (out : VMOutput) : List HMsg :=
   if f == .nftCreateRoleTransfer && c.args[0]? == some tok then
     match out.outAccts with
     | [oa] =>
-      match oa.transfers with
-      | [tr] =>
-        match parseCall tr.data with
-        | .ok (_, [_, nb]) => [{ prev := c.rcv, dest := oa.addr, nb := nb }]
+      -- a transfer to the executing shard itself is not a message: the call has already done both halves, and its
+      -- delivery would be refused anyway (`same_shard_message_dead`)
+      if shardOf e.nshards oa.addr = s then []
+      else
+        match oa.transfers with
+        | [tr] =>
+          match parseCall tr.data with
+          | .ok (_, [_, nb]) => [{ prev := c.rcv, dest := oa.addr, nb := nb }]
+          | _ => []
         | _ => []
-      | _ => []
     | _ => []
   else []
 
@@ -240,7 +294,7 @@ def cstep (e : Env) (tok : Bytes) (w : CWorld) : CStep → CWorld
       match exec { e with self := s } f c { accts := A } with
       | .ok (out, ctx') =>
         { shards := w.shards.set s ctx'.accts,
-          flight := w.flight ++ hmsgOf tok f c out,
+          flight := w.flight ++ hmsgOf e s tok f c out,
           issued := if f == .nftCreate && c.args[0]? == some tok then nonceOfRet out :: w.issued else w.issued }
       | _ => w
   | .deliver i =>
@@ -283,10 +337,10 @@ def CStepOK (e : Env) (tok : Bytes) (w : CWorld) : CStep → Prop
     (c.caller = esdtSCAddress ∨ present e.nshards s c.caller = true) ∧
     -- the create role of `tok` is never passed to ESDTSetRole / ESDTUnSetRole: it moves by hand-over only
     ((f = .setRole ∨ f = .unSetRole) → c.args[0]? = some tok → roleNFTCreate ∉ c.args.drop 1) ∧
-    -- a hand-over of `tok` is issued at its current holder, towards another shard; other hand-overs do not mention `tok`
+    -- a hand-over of `tok` is issued at its current holder (next holder on any shard); other hand-overs do not mention `tok`
     (f = .nftCreateRoleTransfer → c.caller = esdtSCAddress →
       tok ∉ c.args ∨ (∃ dest A, c.args = [tok, dest] ∧ w.shards[s]? = some A ∧ crCnt A c.rcv tok = 1 ∧
-        shardOf e.nshards dest ≠ s ∧ c.rcv ≠ systemAccountAddress)) ∧
+        c.rcv ≠ systemAccountAddress)) ∧
     -- 2^64 creates do not happen
     (∀ A, w.shards[s]? = some A → ctr A c.caller tok + 1 < 2 ^ 64)
   | .deliver _ => True
@@ -341,6 +395,43 @@ end Esdt
 
 namespace Esdt
 
+/-! ### counts and counters across writes -/
+
+theorem crCnt_write_role (A : Accts) (a t : Bytes) (r : List Bytes) (hl : (encRoles r).length < two63) (a' t' : Bytes) :
+    crCnt (A.write a (roleKeyPrefix ++ t) (encRoles r)) a' t' =
+      if a = a' ∧ t = t' then r.count roleNFTCreate else crCnt A a' t' := by
+  by_cases h : a = a' ∧ t = t'
+  · obtain ⟨rfl, rfl⟩ := h
+    rw [if_pos ⟨rfl, rfl⟩]
+    apply crCnt_of_roles
+    rw [Accts.read_write, if_pos ⟨rfl, rfl⟩]
+    exact rolesOf_encRoles _ hl
+  · rw [if_neg h]
+    apply crCnt_congr
+    rw [Accts.read_write, if_neg (fun hh => h ⟨hh.1, List.append_cancel_left hh.2⟩)]
+
+theorem crCnt_write_nonce (A : Accts) (a t v a' t' : Bytes) :
+    crCnt (A.write a (nonceKeyPrefix ++ t) v) a' t' = crCnt A a' t' := by
+  apply crCnt_congr
+  rw [Accts.read_write, if_neg (fun h => role_ne_nonce _ _ h.2.symm)]
+
+theorem ctr_write_role (A : Accts) (a t v a' t' : Bytes) :
+    ctr (A.write a (roleKeyPrefix ++ t) v) a' t' = ctr A a' t' := by
+  apply ctr_congr
+  rw [Accts.read_write, if_neg (fun h => role_ne_nonce _ _ h.2)]
+
+theorem ctr_write_nonce (A : Accts) (a t : Bytes) (n : Nat) (hn : n < two64) (a' t' : Bytes) :
+    ctr (A.write a (nonceKeyPrefix ++ t) (beBytes n)) a' t' = if a = a' ∧ t = t' then n else ctr A a' t' := by
+  by_cases h : a = a' ∧ t = t'
+  · obtain ⟨rfl, rfl⟩ := h
+    rw [if_pos ⟨rfl, rfl⟩]
+    unfold ctr
+    rw [Accts.read_write, if_pos ⟨rfl, rfl⟩]
+    exact counterOf_beBytes n hn
+  · rw [if_neg h]
+    apply ctr_congr
+    rw [Accts.read_write, if_neg (fun hh => h ⟨hh.1, List.append_cancel_left hh.2⟩)]
+
 /-! ### one step -/
 
 /-- set-role / unset-role under the discipline leave every create-role count of `tok` as it was -/
@@ -385,14 +476,14 @@ theorem handover_other (env : Env) (c : Call) (A : Accts) (out : VMOutput) (ctx'
     · exact role_ne_nonce _ _ hr.symm
     · rw [List.append_cancel_left hn] at hnot; exact hnot ht
 
-theorem hmsgOf_nil_of_ne (tok : Bytes) (f : FnId) (c : Call) (out : VMOutput) (h : f ≠ .nftCreateRoleTransfer) :
-    hmsgOf tok f c out = [] := by
+theorem hmsgOf_nil_of_ne (e : Env) (s : Nat) (tok : Bytes) (f : FnId) (c : Call) (out : VMOutput)
+    (h : f ≠ .nftCreateRoleTransfer) : hmsgOf e s tok f c out = [] := by
   unfold hmsgOf
   have : (f == FnId.nftCreateRoleTransfer) = false := by cases f <;> first | rfl | exact absurd rfl h
   simp [this]
 
-theorem hmsgOf_nil_of_notin (tok : Bytes) (f : FnId) (c : Call) (out : VMOutput) (h : tok ∉ c.args) :
-    hmsgOf tok f c out = [] := by
+theorem hmsgOf_nil_of_notin (e : Env) (s : Nat) (tok : Bytes) (f : FnId) (c : Call) (out : VMOutput)
+    (h : tok ∉ c.args) : hmsgOf e s tok f c out = [] := by
   unfold hmsgOf
   have : (c.args[0]? == some tok) = false := by
     cases hc : c.args with
@@ -438,8 +529,8 @@ theorem cstep_call_inv (e : Env) (tok : Bytes) (w : CWorld) (s : Nat) (f : FnId)
       obtain ⟨out, ctx'⟩ := p
       simp only []
       have unchanged : (∀ a, crCnt ctx'.accts a tok = crCnt A a tok) → (∀ a, ctr ctx'.accts a tok = ctr A a tok) →
-          hmsgOf tok f c out = [] → (f == .nftCreate && c.args[0]? == some tok) = false →
-          CInv e tok { shards := w.shards.set s ctx'.accts, flight := w.flight ++ hmsgOf tok f c out,
+          hmsgOf e s tok f c out = [] → (f == .nftCreate && c.args[0]? == some tok) = false →
+          CInv e tok { shards := w.shards.set s ctx'.accts, flight := w.flight ++ hmsgOf e s tok f c out,
                        issued := if (f == .nftCreate && c.args[0]? == some tok) = true then nonceOfRet out :: w.issued
                                  else w.issued } := by
         intro hc hn hm hcr
@@ -453,41 +544,23 @@ theorem cstep_call_inv (e : Env) (tok : Bytes) (w : CWorld) (s : Nat) (f : FnId)
         have hg := (handover_guard { e with self := s } c { accts := A }).elim he'
         simp only at hg
         by_cases hsys : c.caller = esdtSCAddress
-        · rcases hD2 rfl hsys with hnot | ⟨dest, A2, hargs, hs2, hcnt, hshard, hnsys⟩
+        · rcases hD2 rfl hsys with hnot | ⟨dest, A2, hargs, hs2, hcnt, hnsys⟩
           · exact unchanged (fun a => (handover_other _ c A out ctx' tok he' hnot a).1)
-              (fun a => (handover_other _ c A out ctx' tok he' hnot a).2) (hmsgOf_nil_of_notin _ _ _ _ hnot) rfl
+              (fun a => (handover_other _ c A out ctx' tok he' hnot a).2) (hmsgOf_nil_of_notin _ _ _ _ _ _ hnot) rfl
           · rw [hs] at hs2; cases hs2
-            obtain ⟨tok1, dest1, roles, hargs1, hroles, hx, tr, hout, hdata⟩ :=
+            obtain ⟨tok1, dest1, roles, hargs1, hroles, hx, hx2, tr, hout, hdata⟩ :=
               (handover_current_x { e with self := s } c { accts := A } hsys).elim he'
             rw [hargs] at hargs1
             injection hargs1 with e1 e2
             injection e2 with e2 _
             subst e1; subst e2
-            simp only at hroles hx hdata
-            obtain ⟨hw, hl⟩ := hx hshard
+            simp only at hroles hx hx2 hdata
             have hrc : roles.count roleNFTCreate = 1 := by rw [← crCnt_of_roles hroles]; exact hcnt
-            -- the message
-            have hparse : parseCall tr.data = .ok (fnESDTNFTCreateRoleTransfer, [tok, beBytes (ctr A c.rcv tok)]) := by
-              rw [hdata, parseCall_encodeCall _ _ (by decide) (by decide)]
-            have hmsg : hmsgOf tok .nftCreateRoleTransfer c out =
-                [{ prev := c.rcv, dest := dest, nb := beBytes (ctr A c.rcv tok) }] := by
-              simp [hmsgOf, hargs, hout, hparse]
-            rw [hmsg]
             have hrcv : c.rcv ≠ esdtSCAddress := by
               intro e; rw [e, ← hsys, hg.1] at hg; cases hg.2.1
-            -- counts after the step
-            have hcnt' : ∀ a, crCnt ctx'.accts a tok = if a = c.rcv then 0 else crCnt A a tok := by
-              intro a
-              by_cases ha : a = c.rcv
-              · subst ha
-                have hread : rolesOf (ctx'.accts.read c.rcv (roleKeyPrefix ++ tok)) =
-                    some (deleteRoles roles [roleNFTCreate]) := by
-                  rw [hw, Accts.read_write, if_pos ⟨rfl, rfl⟩]; exact rolesOf_encRoles _ hl
-                rw [crCnt_of_roles hread, count_deleteRoles_create, hrc, if_pos rfl]
-              · rw [if_neg ha]
-                apply crCnt_congr
-                rw [hw, Accts.read_write, if_neg (fun h => ha h.1.symm), Accts.read_write, if_neg (fun h => ha h.1.symm)]
             cases hI.loc with
+            | flying m hfl ho _ _ _ => have := ho s A c.rcv hs; omega
+            | nowhere hfl ho => have := ho s A c.rcv hs; omega
             | held s1 h Ah hsh hc1 ho hfl hiss =>
               have hsame : s = s1 ∧ c.rcv = h := by
                 apply Classical.byContradiction
@@ -496,30 +569,73 @@ theorem cstep_call_inv (e : Env) (tok : Bytes) (w : CWorld) (s : Nat) (f : FnId)
                 omega
               obtain ⟨rfl, rfl⟩ := hsame
               rw [hs] at hsh; cases hsh
-              refine ⟨Loc.flying { prev := c.rcv, dest := dest, nb := beBytes (ctr A c.rcv tok) } (by simp [hfl]) ?_ ?_ hrcv ?_,
-                by simpa using hI.sorted⟩
-              · intro s' A2 a hs'
-                simp only at hs'
-                rw [getElem?_set_of hs] at hs'
-                by_cases h0 : s' = s
-                · simp only [h0, if_true] at hs'
-                  cases hs'
-                  rw [hcnt']
+              have hoA : ∀ a, a ≠ c.rcv → crCnt A a tok = 0 := fun a ha => ho s A a hs (fun h => ha h.2)
+              by_cases hshard : shardOf e.nshards dest = s
+              · -- next holder on the same shard: the call does both halves
+                obtain ⟨A3, roles2, hA3, hl, hr2, _, hno⟩ := hx2 hshard
+                have hcA3 : ∀ a, crCnt A3 a tok = 0 := by
+                  intro a
+                  rw [hA3, crCnt_write_nonce, crCnt_write_role _ _ _ _ hl, crCnt_write_nonce]
                   split
-                  · rfl
-                  · rename_i ha; exact ho s A a hs (fun h => ha h.2)
-                · simp only [h0, if_false] at hs'
-                  exact ho s' A2 a hs' (fun h => h0 h.1)
-              · intro n hn
-                simp only [beNat_beBytes, u64_of_lt _ (ctr_lt A c.rcv tok)]
-                simpa using hiss n (by simpa using hn)
-              · exact present_false_of _ s _ c.rcv hnsys hg.2.1 hshard
-            | flying m hfl ho _ _ _ => have := ho s A c.rcv hs; omega
-            | nowhere hfl ho => have := ho s A c.rcv hs; omega
+                  · rw [count_deleteRoles_create, hrc]
+                  · rename_i hne; exact hoA a (fun h => hne ⟨h.symm, rfl⟩)
+                have hz : roles2.count roleNFTCreate = 0 := by rw [← crCnt_of_roles hr2]; exact hcA3 dest
+                have hcf : roles2.contains roleNFTCreate = false := by
+                  have := List.count_eq_zero.mp hz
+                  simpa using this
+                obtain ⟨hw, hl2⟩ := hno hcf
+                have hmsg : hmsgOf e s tok .nftCreateRoleTransfer c out = [] := by
+                  simp [hmsgOf, hargs, hout, hshard]
+                rw [hmsg]
+                simp only [List.append_nil]
+                refine ⟨Loc.held s dest ctx'.accts (by simp [getElem?_set_of hs]) ?_ ?_ hfl ?_, by simpa using hI.sorted⟩
+                · rw [hw, crCnt_write_role _ _ _ _ hl2, if_pos ⟨rfl, rfl⟩, List.count_append, hz]; rfl
+                · intro s' A2 a hs' hne
+                  simp only at hs'
+                  rw [getElem?_set_of hs] at hs'
+                  by_cases h0 : s' = s
+                  · simp only [h0, if_true] at hs'
+                    cases hs'
+                    have ha : ¬ (dest = a ∧ tok = tok) := fun h => hne ⟨h0, h.1.symm⟩
+                    rw [hw, crCnt_write_role _ _ _ _ hl2, if_neg ha]
+                    exact hcA3 a
+                  · simp only [h0, if_false] at hs'
+                    exact ho s' A2 a hs' (fun h => h0 h.1)
+                · intro n hn
+                  have : ctr ctx'.accts dest tok = ctr A c.rcv tok := by
+                    rw [hw, ctr_write_role, hA3, ctr_write_nonce _ _ _ _ (ctr_lt A c.rcv tok), if_pos ⟨rfl, rfl⟩]
+                  rw [this]
+                  exact hiss n (by simpa using hn)
+              · -- next holder on another shard: strip here, ship the counter
+                obtain ⟨hw, hl⟩ := hx hshard
+                have hparse : parseCall tr.data = .ok (fnESDTNFTCreateRoleTransfer, [tok, beBytes (ctr A c.rcv tok)]) := by
+                  rw [hdata, parseCall_encodeCall _ _ (by decide) (by decide)]
+                have hmsg : hmsgOf e s tok .nftCreateRoleTransfer c out =
+                    [{ prev := c.rcv, dest := dest, nb := beBytes (ctr A c.rcv tok) }] := by
+                  simp [hmsgOf, hargs, hout, hparse, hshard]
+                rw [hmsg]
+                refine ⟨Loc.flying { prev := c.rcv, dest := dest, nb := beBytes (ctr A c.rcv tok) } (by simp [hfl]) ?_ ?_ hrcv
+                  ?_, by simpa using hI.sorted⟩
+                · intro s' A2 a hs'
+                  simp only at hs'
+                  rw [getElem?_set_of hs] at hs'
+                  by_cases h0 : s' = s
+                  · simp only [h0, if_true] at hs'
+                    cases hs'
+                    rw [hw, crCnt_write_role _ _ _ _ hl, crCnt_write_nonce]
+                    split
+                    · rw [count_deleteRoles_create, hrc]
+                    · rename_i hne; exact hoA a (fun h => hne ⟨h.symm, rfl⟩)
+                  · simp only [h0, if_false] at hs'
+                    exact ho s' A2 a hs' (fun h => h0 h.1)
+                · intro n hn
+                  simp only [beNat_beBytes, u64_of_lt _ (ctr_lt A c.rcv tok)]
+                  simpa using hiss n (by simpa using hn)
+                · exact present_false_of _ s _ c.rcv hnsys hg.2.1 hshard
         · rcases hcaller with h | h
           · exact absurd h hsys
           · rw [hg.1] at h; cases h
-      · have hm : hmsgOf tok f c out = [] := hmsgOf_nil_of_ne _ _ _ _ hho
+      · have hm : hmsgOf e s tok f c out = [] := hmsgOf_nil_of_ne _ _ _ _ _ _ hho
         by_cases hsr : f = .setRole ∨ f = .unSetRole
         · have hcn : ∀ a, ctr ctx'.accts a tok = ctr A a tok := fun a =>
             ctr_congr (counters_only_through f ⟨by rcases hsr with rfl | rfl <;> decide, hho⟩ _ c _ ctx' out he a tok)
@@ -715,7 +831,7 @@ def cstepOKb (e : Env) (tok : Bytes) (w : CWorld) : CStep → Bool
     (decide (f = .nftCreateRoleTransfer → c.caller = esdtSCAddress → tok ∉ c.args) ||
       (match c.args, w.shards[s]? with
        | [t, dest], some A =>
-         decide (t = tok ∧ crCnt A c.rcv tok = 1 ∧ shardOf e.nshards dest ≠ s ∧ c.rcv ≠ systemAccountAddress)
+         decide (t = tok ∧ crCnt A c.rcv tok = 1 ∧ c.rcv ≠ systemAccountAddress)
        | _, _ => false)) &&
     (match w.shards[s]? with
      | some A => decide (ctr A c.caller tok + 1 < 2 ^ 64)
@@ -737,7 +853,7 @@ theorem cstepOKb_sound (e : Env) (tok : Bytes) (w : CWorld) (st : CStep) (h : cs
         split at h3
         · rename_i t dest A hargs hsh
           simp only [decide_eq_true_eq] at h3
-          exact ⟨dest, A, by rw [hargs, h3.1], hsh, h3.2.1, h3.2.2.1, h3.2.2.2⟩
+          exact ⟨dest, A, by rw [hargs, h3.1], hsh, h3.2.1, h3.2.2⟩
         · cases h3
     · intro A hA
       rw [hA] at h4
@@ -753,5 +869,24 @@ theorem cstepsOKb_sound (e : Env) (tok : Bytes) : ∀ (steps : List CStep) (w : 
   | st :: rest, w, h => by
     simp only [cstepsOKb, Bool.and_eq_true] at h
     exact ⟨cstepOKb_sound e tok w st h.1, cstepsOKb_sound e tok rest _ h.2⟩
+
+end Esdt
+
+namespace Esdt
+
+/-- why an output transfer to the executing shard itself is not a message of the world: delivered there with the old holder
+    as caller it is refused, whatever the state (the sender account is local) -/
+theorem same_shard_message_dead (e : Env) (tok : Bytes) (m : HMsg) (A : Accts) (out : VMOutput) (ctx' : Ctx)
+    (hp : present e.nshards (shardOf e.nshards m.dest) m.prev = true) :
+    exec { e with self := shardOf e.nshards m.dest } .nftCreateRoleTransfer (deliverCall tok m) { accts := A } ≠
+      .ok (out, ctx') := by
+  intro he
+  have he' : esdtNFTCreateRoleTransfer { e with self := shardOf e.nshards m.dest } (deliverCall tok m) { accts := A } =
+      .ok (out, ctx') := by
+    unfold exec at he; simpa [runFn] using he
+  have hg := (handover_guard _ _ _).elim he'
+  simp only [deliverCall] at hg
+  rw [hp] at hg
+  cases hg.1
 
 end Esdt
